@@ -242,6 +242,15 @@ def opErrOfErr : Err → OpErr
   | .invalidOperator m => .named "InvalidOperatorError" m
   | .other n m => .named n m
 
+/-- String.BinaryOp(+) stringifies a right operand that is neither String nor Bytes -/
+def needStr (l : V) (tok : Tok) (r : V) : Bool :=
+  match l, tok, r with
+  | .str _, .Add, .str _ => false
+  | .str _, .Add, .bytes _ => false
+  | .str _, .Add, .undefined => true
+  | .str _, .Add, _ => true
+  | _, _, _ => false
+
 /-- `left.BinaryOp(tok, right)` as dispatched by OpBinaryOp -/
 def vBinaryOp (F : FloatOps) (tok : Tok) (l r : V) : M (Except OpErr V) := do
   match l with
@@ -275,13 +284,7 @@ def vBinaryOp (F : FloatOps) (tok : Tok) (l r : V) : M (Except OpErr V) := do
   | l =>
     match toValShallow l, toValShallow r with
     | some a, some b =>
-      let needStr := match l, tok, r with
-        | .str _, .Add, .str _ => false
-        | .str _, .Add, .bytes _ => false
-        | .str _, .Add, .undefined => true
-        | .str _, .Add, _ => true
-        | _, _, _ => false
-      let rs ← if needStr then vString r else pure []
+      let rs ← if needStr l tok r then vString r else pure []
       let S : ObjOps := { toStr := fun _ => rs }
       match Model.binaryOp F S tok a b with
       | .ok v =>
